@@ -11,7 +11,7 @@ from harness import gen, model, ref
 from harness.model import T
 from harness.props.c01 import compare_load, load_outcome
 from harness.props.c05 import plain_doc
-from harness.props import v1streams
+from harness.props import v1streams, reach
 
 
 def gen_c09_cls(rng, depth, nested=False, fresh=None, p_noinit=0.35):
@@ -80,6 +80,11 @@ def key_positions(ty, doc, path=()):
     elif k == 'tuple' and isinstance(doc, list):
         for i, (m, v) in enumerate(zip(ty['a'], doc)):
             out += key_positions(m, v, path + (i,))
+    elif k in ('union', 'typeddict'):
+        # a tagged-Union member selected by the document's tag / the values of a TypedDict (harness/props/reach.py); the tag
+        # key and the TypedDict's own keys are not dataclass fields and are never deleted
+        for step, ct, cd in reach.children(ty, doc):
+            out += key_positions(ct, cd, path if step is None else path + (step,))
     return out
 
 
@@ -113,7 +118,7 @@ def expect(ty, doc):
                 if r is not None:
                     return r
         missing = [f['name'] for f in ty['info']['fields']
-                   if f.get('init', True) and f.get('dflt') is None and f['name'] not in doc]
+                   if f.get('init', True) and f.get('dflt') is None and f['name'] not in doc and not f.get('catch_all')]
         if missing:
             return (ty['info']['name'], sorted(missing))
         return None
@@ -134,16 +139,29 @@ def expect(ty, doc):
             r = expect(m, v)
             if r is not None:
                 return r
+    elif k in ('union', 'typeddict'):
+        for _step, ct, cd in reach.children(ty, doc):
+            r = expect(ct, cd)
+            if r is not None:
+                return r
     return None
 
 
-def check_defaults(ctx, case, y, y2, ty, doc, built, src):
+def check_defaults(ctx, case, y, y2, ty, doc, built, src, deep=False):
     """on success: omitted fields hold their default (fresh factory product per instance), present ones their value"""
     info = ty['info']
     ftys = dict((n, ft) for n, ft in ty['ftys'])
     for f in info['fields']:
         name = f['name']
         if not f.get('init', True):
+            continue
+        if f.get('catch_all'):
+            # documents of this property hold no unknown key: the CatchAll field keeps its default ({} when it declares none)
+            want = ref.dflt_value(f['dflt']) if f.get('dflt') is not None else {}
+            got = getattr(y, name)
+            if not ref.same_typed(got, want):
+                ctx.fail('absent:catch-all', case, f'no unknown key in the document, yet the CatchAll field {name} holds {got!r}, expected {want!r}', detail=src)
+                return
             continue
         if name not in doc:
             d = f.get('dflt')
@@ -161,7 +179,115 @@ def check_defaults(ctx, case, y, y2, ty, doc, built, src):
         else:
             ft = ftys[name]
             if ft['k'] == 'cls' and isinstance(doc[name], dict):
-                check_defaults(ctx, case, getattr(y, name), getattr(y2, name), ft, doc[name], built, src)
+                check_defaults(ctx, case, getattr(y, name), getattr(y2, name), ft, doc[name], built, src, deep=deep)
+            elif deep:
+                for mty, mdoc, my, my2 in loaded_objects(ft, doc[name], getattr(y, name), getattr(y2, name)):
+                    check_defaults(ctx, case, my, my2, mty, mdoc, built, src, deep=True)
+
+
+def loaded_objects(ty, doc, y, y2):
+    """(class node, object document, loaded instance, instance of a second load) for the dataclass objects right below a
+    container / Union / TypedDict value (`deep` mode of check_defaults)"""
+    if ty['k'] == 'cls':
+        return [(ty, doc, y, y2)] if isinstance(doc, dict) else []
+    out = []
+    for step, ct, cd in reach.children(ty, doc):
+        try:
+            cy, cy2 = (y, y2) if step is None else (y[step], y2[step])
+        except (KeyError, IndexError, TypeError):
+            continue
+        out += loaded_objects(ct, cd, cy, cy2)
+    return out
+
+
+# --------------------------------------------------------------------------- unknown-key accounting x absent keys
+#
+# A class that counts unknown keys (v1_on_unknown_key RAISE / WARN, own or cascading from the root; a CatchAll field) runs extra
+# generated code on every load: it decides "does this document hold a key that maps to no field?" from the keys it consumed.
+# A document obtained by *deleting* keys from a complete one never holds an unknown key, so under every such setting
+#   * the outcome is the one of the property (success with defaults / exact MissingFields), never UnknownKeysError,
+#   * nothing is logged under WARN,
+#   * a CatchAll field keeps its default ({} when it declares none).
+
+UNK_SETTINGS = [None, 'RAISE', 'RAISE', 'RAISE', 'WARN', 'WARN', 'IGNORE']
+CATCH_NAME = 'extras_fld'
+
+
+def add_unknown_key_settings(urng, ty, meta, own_prob=0.2, catch_prob=0.22):
+    """draw (from `urng`, a generator of its own so that the class models of the stream stay what they were) an unknown-key
+    setting for the root Meta, own settings for some nested classes, and CatchAll fields (with default None / without) for some
+    classes at any depth; returns a description for the case record"""
+    desc = {}
+    setting = urng.choice(UNK_SETTINGS)
+    if setting is not None:
+        meta['v1_on_unknown_key'] = setting
+        desc['root'] = setting
+    seen = set()
+    for n_, c in enumerate(_classes(ty)):
+        info = c['info']
+        if info['name'] in seen:
+            continue
+        seen.add(info['name'])
+        if n_ > 0 and urng.random() < own_prob:
+            own = urng.choice(['RAISE', 'RAISE', 'WARN', 'IGNORE'])
+            info['meta'] = dict(info.get('meta') or {}, v1_on_unknown_key=own)
+            desc[info['name']] = own
+        if urng.random() < catch_prob:
+            cf = {'name': CATCH_NAME, 'catch_all': True}
+            fields = info['fields']
+            if urng.random() < 0.5:
+                cf['dflt'], cf['factory'] = ['lit', None], False
+                lo = max([ix + 1 for ix, f in enumerate(fields) if f.get('dflt') is None and f.get('init', True)], default=0)
+                fields.insert(urng.randint(lo, len(fields)), cf)
+            else:
+                hi = next((ix for ix, f in enumerate(fields) if f.get('dflt') is not None or not f.get('init', True)), len(fields))
+                fields.insert(urng.randint(0, hi), cf)
+            c['ftys'].append([CATCH_NAME, T('any')])
+            desc[info['name'] + '.catch_all'] = 'default None' if cf.get('dflt') else 'no default'
+    return desc
+
+
+def strip_catch_all(ty, doc):
+    """plain_doc spells a CatchAll field under its own name; it is never a document key: remove it at every class position"""
+    k = ty['k']
+    if k == 'cls' and isinstance(doc, dict):
+        if any(f.get('catch_all') for f in ty['info']['fields']):
+            doc.pop(CATCH_NAME, None)
+        for n, ft in ty['ftys']:
+            if n in doc:
+                strip_catch_all(ft, doc[n])
+    elif k == 'list' and isinstance(doc, list):
+        for v in doc:
+            strip_catch_all(ty['a'][0], v)
+    elif k == 'dict' and isinstance(doc, dict):
+        for v in doc.values():
+            strip_catch_all(ty['a'][1], v)
+    elif k == 'optional' and doc is not None:
+        strip_catch_all(ty['a'][0], doc)
+    elif k == 'tuple' and isinstance(doc, list):
+        for m, v in zip(ty['a'], doc):
+            strip_catch_all(m, v)
+    elif k in ('union', 'typeddict'):
+        for _step, ct, cd in reach.children(ty, doc):
+            strip_catch_all(ct, cd)
+    return doc
+
+
+def watched_load(ctx, prefix, case, fn, watch, src):
+    """load_outcome(fn); with `watch`, any warning the library logs meanwhile is a failure (the document holds no unknown key)"""
+    if not watch:
+        return load_outcome(fn)
+    from harness.props.c10 import _Records
+    with _Records() as rec:
+        out = load_outcome(fn)
+    if rec.records:
+        try:
+            text = rec.records[0].getMessage()
+        except Exception as e:           # noqa
+            text = repr(e)
+        ctx.fail(prefix + ':stray-warning', case, f'the document holds no unknown key, yet the load logged {len(rec.records)} warning(s): '
+                 f'{text[:300]}', detail=src)
+    return out
 
 
 # --------------------------------------------------------------------------- further main classes reaching the same classes
@@ -195,7 +321,7 @@ def unwrap_obj(shape, fname, y):
     return {'direct': v, 'optional': v, 'list': v[0] if shape == 'list' else None, 'dict': v['k'] if shape == 'dict' else None}[shape]
 
 
-def judge_wrapped(ctx, prefix, engine_word, case, wty, shape, fname, Cls, ty, d, built, src, reqs, pend, op, corr=True):
+def judge_wrapped(ctx, prefix, engine_word, case, wty, shape, fname, Cls, ty, d, built, src, reqs, pend, op, corr=True, watch=False):
     """the same document, wrapped, through a further main class: same reference, same clauses"""
     from dataclass_wizard import fromdict
     from dataclass_wizard.errors import MissingFields
@@ -203,7 +329,7 @@ def judge_wrapped(ctx, prefix, engine_word, case, wty, shape, fname, Cls, ty, d,
     wcase = dict(case, via=wty['info']['name'], shape=shape)
     ctx.seen(prefix + ':wrapped', wcase, nontrivial=True)
     before = copy.deepcopy(wd)
-    out = load_outcome(lambda: fromdict(Cls, wd))
+    out = watched_load(ctx, prefix, wcase, lambda: fromdict(Cls, wd), watch, src)
     exp = expect(wty, wd)
     if exp is None:
         if out[0] == 'err':
@@ -239,6 +365,7 @@ def judge_wrapped(ctx, prefix, engine_word, case, wty, shape, fname, Cls, ty, d,
 
 
 BIND_OFFSET = 20_000_000
+REACH_OFFSET = 30_000_000
 
 
 def run(ctx: C.Ctx):
@@ -247,9 +374,12 @@ def run(ctx: C.Ctx):
     bind_rng = random.Random(f'{ctx.prop_id}:{ctx.seed}:bind')
     if ctx.only is None or ctx.only < BIND_OFFSET:
         v1streams.run_streams(ctx, run_default, run_v1)
-    if ctx.only is None or ctx.only >= BIND_OFFSET:
+    if ctx.only is None or BIND_OFFSET <= ctx.only < REACH_OFFSET:
         # third stream: fields bound through aliases / paths x absent keys (c09_bind.py)
         c09_bind.run(ctx, bind_rng, BIND_OFFSET)
+    if ctx.only is None or ctx.only >= REACH_OFFSET:
+        # fourth stream: how the nested dataclass is reached (tagged Union, TypedDict value, ...) x absent keys
+        run_reach(ctx)
 
 
 def run_default(ctx: C.Ctx):
@@ -381,6 +511,7 @@ def soften_kw_only(rng, ty, keep=0.015):
 
 
 def run_v1(ctx: C.Ctx):
+    import random
     from dataclass_wizard import fromdict
     from dataclass_wizard.errors import MissingFields, JSONWizardError
     rng = v1streams.sub_rng(ctx)
@@ -388,7 +519,10 @@ def run_v1(ctx: C.Ctx):
     ctx.rule = ('the same class models bound to the v1 engine (root Meta v1=True, optionally v1_key_case=AUTO; more init=False fields, '
                 'with default and without (assigned in __post_init__)), the same subsets of deleted key positions: outcome vs the reference '
                 '(success with defaults / exact MissingFields naming the class and only constructor fields), default_factory freshness, '
-                'str(e), and vs the Lean model of the v1 engine (op loadv1). Non-trivial = distinct (class model, deleted subset), ≥ 1 deletion.')
+                'str(e), and vs the Lean model of the v1 engine (op loadv1); crossed with the unknown-key accounting of the engine (root Meta / '
+                'nested class states v1_on_unknown_key RAISE / WARN / IGNORE, CatchAll fields with default None / without, at any depth): a '
+                'document made by deleting keys holds no unknown key, so the outcome is the same, nothing is logged and a CatchAll field keeps '
+                'its default. Non-trivial = distinct (class model, deleted subset), ≥ 1 deletion.')
     ncls = ctx.quick(70, 500)
     reqs, pend = [], []
     idx = v1streams.OFFSET
@@ -399,6 +533,9 @@ def run_v1(ctx: C.Ctx):
         meta = {'v1': True}
         if rng.random() < 0.4:
             meta['v1_key_case'] = 'AUTO'
+        # unknown-key accounting (root / own v1_on_unknown_key, CatchAll fields), drawn from a generator of its own
+        urng = random.Random(f'{ctx.prop_id}:{ctx.seed}:v1:unknown-keys:{ci}')
+        unk = add_unknown_key_settings(urng, ty, meta) if not kw_req else {}
         ty['info']['meta'] = meta
         wraps = gen_wrappers(rng, ty, namer, meta)
         if kw_req:
@@ -413,9 +550,11 @@ def run_v1(ctx: C.Ctx):
             continue
         try:
             x = gen.gen_instance(rng, ty, built, use_defaults_prob=0.0)
-            doc = json.loads(json.dumps(plain_doc(x, ty, built)))
+            doc = strip_catch_all(ty, json.loads(json.dumps(plain_doc(x, ty, built))))
             pos = key_positions(ty, doc)
             limit = ctx.quick(6, 10)
+            if unk:
+                ctx.count('v1:unknown-key-accounting')
             if len(pos) <= limit:
                 subsets = [s for r in range(len(pos) + 1) for s in itertools.combinations(pos, r)]
                 ctx.count('v1:exhaustive_classes')
@@ -433,6 +572,8 @@ def run_v1(ctx: C.Ctx):
                     continue
                 d = delete_paths(doc, S)
                 case = {'ty': ty, 'doc': repr(d)[:500], 'deleted': repr(S), 'engine': 'v1'}
+                if unk:
+                    case['unknown_key_settings'] = unk
                 for tgt in order:
                     if tgt >= 0 and k_ % stride:
                         continue               # large power sets (thorough tier): every stride-th subset goes through the further main classes
@@ -440,12 +581,12 @@ def run_v1(ctx: C.Ctx):
                         wty, shape, fname = wraps[tgt]
                         judge_wrapped(ctx, 'absent:v1', 'v1 ', case, wty, shape, fname, built.get(wty['info']['name']), ty, d, built,
                                       dict(src=built.source), reqs, pend, 'loadv1',
-                                      corr=(stride == 1 or k_ % (stride * 4) == 0))
+                                      corr=(stride == 1 or k_ % (stride * 4) == 0), watch=bool(unk))
                         continue
                     ctx.seen('absent:v1', case, nontrivial=bool(S))
                     src = dict(src=built.source)
                     before = copy.deepcopy(d)
-                    out = load_outcome(lambda: fromdict(Root, d))
+                    out = watched_load(ctx, 'absent:v1', case, lambda: fromdict(Root, d), bool(unk), src)
                     kwkey = None
                     if kw_req and out[0] == 'err':
                         # bare at the root, wrapped into a ParseError by the enclosing class's handler when nested
@@ -495,3 +636,104 @@ def run_v1(ctx: C.Ctx):
         outs = ctx.driver.run(reqs)
         for (case, out, built), o_ in zip(pend, outs):
             compare_load(ctx, 'absent:v1', case, out, o_, built)
+
+
+# --------------------------------------------------------------------------- fourth stream: ways of reaching the nested dataclass
+
+def judge_load(ctx, prefix, word, case, Cls, ty, d, built, src):
+    """one load of document `d` (made by deleting keys) at main class `ty`: the property's clauses; returns the outcome"""
+    from dataclass_wizard import fromdict
+    from dataclass_wizard.errors import MissingFields
+    before = copy.deepcopy(d)
+    out = load_outcome(lambda: fromdict(Cls, d))
+    exp = expect(ty, d)
+    if exp is None:
+        if out[0] == 'err':
+            ctx.fail(prefix + ':unexpected-error', case, f'no required key deleted, but the {word}load raised {type(out[1]).__name__}: {str(out[1])[:300]}', detail=src)
+        else:
+            y2 = fromdict(Cls, copy.deepcopy(before))
+            check_defaults(ctx, case, out[1], y2, ty, d, built, src, deep=True)
+        return out
+    cname, missing = exp
+    if out[0] == 'ok':
+        ctx.fail(prefix + ':no-error', case, f'required field(s) {missing} of {cname} deleted, but the {word}load returned {out[1]!r}'[:800], detail=src)
+    elif not isinstance(out[1], MissingFields):
+        ctx.fail(prefix + ':wrong-error', case, f'required field(s) {missing} of {cname} deleted: expected MissingFields, got '
+                 f'{type(out[1]).__name__}: {str(out[1])[:300]}', detail=src)
+    else:
+        e = out[1]
+        got = sorted(e.missing_fields)
+        if got != missing or e.class_name != cname:
+            ctx.fail(prefix + ':missing-list', case, f'{word}MissingFields(class={e.class_name}, missing={got}), expected class={cname}, missing={missing}', detail=src)
+        try:
+            assert isinstance(str(e), str)
+        except Exception as ee:            # noqa
+            ctx.fail(prefix + ':message', case, f'str(MissingFields) raised {ee!r}', detail=src)
+    return out
+
+
+def run_reach(ctx: C.Ctx):
+    rng = v1streams.sub_rng(ctx, 'reach')
+    gen.SUBS = False
+    ctx.rule += (' || REACH STREAM (default engine): main classes whose holder fields reach the class models of the first stream directly / through '
+                 'list / Optional / dict and through the parsers with error handling of their own: Union[A, B(, None)] of tagged dataclasses '
+                 '(explicit Meta.tag or auto_assign_tags of the main class, default or custom tag key, tag key anywhere in the object), '
+                 'list / dict of such Unions, values of a TypedDict (a dataclass, a list of them, Optional, a tagged Union), lists of TypedDicts; '
+                 'subsets of the dataclass-key positions of a complete document (the tag key and the keys of the TypedDict itself stay): '
+                 'the same reference — success with defaults at every depth, else MissingFields naming the nested class and exactly its '
+                 'omitted required fields — and the Lean model.')
+    ncls = ctx.quick(70, 600)
+    reqs, pend = [], []
+    idx = REACH_OFFSET
+    for ci in range(ncls):
+        base = v1streams.Namer(ci)
+
+        def nm(prefix='K', base=base):
+            return base('Q' + prefix)
+
+        def mk():
+            return gen_c09_cls(rng, rng.choice([0, 0, 0, 1]), nested=True, fresh=nm, p_noinit=0.3)
+        ty, facts = reach.gen_root(rng, nm, mk, wizard=rng.random() < 0.75)
+        try:
+            built = model.Built(ty)
+            Root = built.get(ty['info']['name'])
+        except Exception as e:
+            ctx.count('build_error')
+            ctx.notes.setdefault('build_errors', []).append(repr(e)[:300])
+            continue
+        try:
+            doc = reach.gen_doc(rng, ty, built)
+            pos = key_positions(ty, doc)
+            inner = [p for p in pos if len(p) > 1]
+            limit = ctx.quick(5, 9)
+            if len(pos) <= limit:
+                subsets = [s for r in range(len(pos) + 1) for s in itertools.combinations(pos, r)]
+            else:
+                # the empty set, every single position below a holder, and random subsets
+                subsets = [()] + [(p,) for p in inner[:ctx.quick(12, 40)]] + \
+                          [tuple(p for p in pos if rng.random() < rng.choice([0.1, 0.3])) for _ in range(ctx.quick(12, 120))]
+            for S in subsets:
+                i = idx
+                idx += 1
+                if ctx.done(i):
+                    break
+                if not ctx.begin_case(i):
+                    continue
+                d = delete_paths(doc, S)
+                case = {'ty': ty, 'doc': repr(d)[:600], 'deleted': repr(S), 'reach': facts}
+                ctx.seen('absent:reach', case, nontrivial=bool(S))
+                for sh in facts['shapes']:
+                    ctx.count('reach:' + sh)
+                out = judge_load(ctx, 'absent:reach', '', case, Root, ty, d, built, dict(src=built.source))
+                st = model.StdTables()
+                st.add_json(d)
+                reqs.append({'op': 'load', 'ty': model.enc_ty(ty), 'doc': model.enc_j(d), 'std': st.build()})
+                pend.append((case, out, built))
+        finally:
+            built.close()
+        if ctx.done(idx):
+            break
+    if ctx.model_available:
+        outs = ctx.driver.run(reqs)
+        for (case, out, built), o_ in zip(pend, outs):
+            compare_load(ctx, 'absent:reach', case, out, o_, built)
